@@ -29,6 +29,10 @@ RULE = ('Per distribution family (standard normal, normal, lognormal, exponentia
         'inserted in ascending, descending, random or decreasing-probability order (the replay keeps the order). Negative binomial by (mean, sd): half '
         'of the cases draw the two moments directly (mean a multiple of 1/4 or uniform in 0.5-40, variance/mean in 1.05-6, sd as is or rounded up to a '
         'multiple of 1/4), so that the implied r is an arbitrary positive real; the other half derives them from (r, p) with r mostly an integer. '
+        'Arguments documented as IGNORED are passed as well: negative binomial with r, p AND mean, sd in one call (positionally or by keyword) -- the mean / sd being the '
+        'moments of NB(r, p), those rounded to 2 decimals, the moments of another negative binomial, scaled ones, or sd^2 <= mean -- judged against NB(r, p) '
+        '("ignored if r and p are both provided"); discrete_loss / discrete_second_loss with a scipy object AND the pmf dict of another distribution (a quarter of '
+        'the scipy-object cases; "ignored if distrib is not None"), judged against the object. '
         'Call sequences (state carried from one distribution object to the next): 40% of the pmf / scipy-object cases are preceded, in the same process and '
         'recorded in the case, by the evaluation of another distribution of the same kind -- a pmf with the same smallest and largest value, the same scipy '
         'family with other parameters, a user-defined subclass with the same first support point (always). '
@@ -205,7 +209,11 @@ def o_generic_continuous(o, rng):
     return case, nt
 
 
-def o_discrete_family(o, rng, fam):
+NB_BOTH = 'negative_binomial(r,p;mean,sd)'
+
+
+def o_discrete_family(o, rng, fam, params=None):
+    """params (replay of the NB_BOTH family): the recorded r, p, mean, sd"""
     from scipy import stats
     L = lf()
     if fam == 'poisson':
@@ -220,6 +228,22 @@ def o_discrete_family(o, rng, fam):
         if fam == 'negative_binomial(r,p)':
             dist = stats.nbinom(r, p)
             pars = dict(r=r, p=p); c1 = lambda x: L.negative_binomial_loss(x, r, p); c2 = lambda x: L.negative_binomial_second_loss(x, r, p)
+        elif fam == NB_BOTH:
+            # BOTH parametrisations in one call: mean and sd are documented as "ignored if r and p are both provided", so the distribution is NB(r, p)
+            # whatever is passed for them -- the moments of NB(r, p) themselves (exact or rounded to 2 decimals, as a caller who keeps all four in one
+            # record would pass them), or the mean / sd of some other forecast (other NB moments, or sd^2 <= mean which is no NB at all)
+            em, es = float(stats.nbinom(r, p).mean()), float(stats.nbinom(r, p).std())
+            how = rng.choice(['moments of NB(r,p)', 'moments of NB(r,p), rounded', 'other NB moments', 'other NB moments', 'scaled', 'sd^2 <= mean'])
+            if how == 'moments of NB(r,p)': mm, ss = em, es
+            elif how == 'moments of NB(r,p), rounded': mm, ss = round(em, 2), round(es, 2)
+            elif how == 'other NB moments': mm = rng.choice([rng.randint(2, 160) / 4, rng.uniform(.5, 40)]); ss = math.sqrt(mm * rng.uniform(1.05, 6))
+            elif how == 'scaled': mm, ss = em * rng.choice([.5, 1.0, 2.0]), es * rng.choice([.5, 1.5])
+            else: mm = rng.uniform(1, 40); ss = math.sqrt(mm) * rng.uniform(.3, 1.0)
+            if params is not None: r, p, mm, ss, how = params['r'], params['p'], params['mean'], params['sd'], params.get('mean_sd_passed', 'replayed')
+            dist = stats.nbinom(r, p)
+            pars = dict(r=r, p=p, mean=mm, sd=ss, mean_sd_passed=how); o.chk.count('negative_binomial r, p AND mean, sd: ' + how)
+            if rng.random() < .5: c1 = lambda x: L.negative_binomial_loss(x, r, p, mm, ss); c2 = lambda x: L.negative_binomial_second_loss(x, r, p, mm, ss)
+            else: c1 = lambda x: L.negative_binomial_loss(x, mean=mm, sd=ss, r=r, p=p); c2 = lambda x: L.negative_binomial_second_loss(x, sd=ss, mean=mm, p=p, r=r)
         else:
             # the two moments are the INPUT here (as when they are estimated from data): half of the cases draw (mean, sd) directly -- round numbers
             # (multiples of 1/4) or uniform, any sd^2 > mean -- so that the implied r = mean^2 / (sd^2 - mean) is an arbitrary positive real (from
@@ -317,15 +341,21 @@ def check_generic_discrete(o, case, rng=None):
             return (0.5 * float(np.sum(pm * up * (up - 1))), 0.5 * float(np.sum(pm * dn * (dn + 1))))
         return f
     tol = dict(id_tol=1e-7, truth_tol=TOL) if k == 'custom-pmf' else {}        # scipy computes the mean of a user-defined pmf by a truncated sum (~1e-8)
-    nt = family_check(o, 'discrete_loss(distrib)', case, case['xs'], lambda x: o.call('discrete_loss(distrib)', L.discrete_loss, dict(case, x=x), x, dist), None, t(False), mean, discrete=True, scale=sd, **tol)
-    family_check(o, 'discrete_second_loss(distrib)', case, case['xs'], lambda x: o.call('discrete_second_loss(distrib)', L.discrete_second_loss, dict(case, x=x), x, dist), None, t(True), mean,
+    # both ways of giving the distribution in one call: pmf is documented as "ignored if distrib is not None", so the values are those of the object
+    extra = ({int(kk): float(F(v)) for kk, v in case['ignored_pmf'].items()},) if case.get('ignored_pmf') else ()
+    sfx = '(distrib+ignored-pmf)' if extra else '(distrib)'
+    nt = family_check(o, 'discrete_loss' + sfx, case, case['xs'], lambda x: o.call('discrete_loss' + sfx, L.discrete_loss, dict(case, x=x), x, dist, *extra), None, t(False), mean, discrete=True, scale=sd, **tol)
+    family_check(o, 'discrete_second_loss' + sfx, case, case['xs'], lambda x: o.call('discrete_second_loss' + sfx, L.discrete_second_loss, dict(case, x=x), x, dist, *extra), None, t(True), mean,
                  second=True, var=var, discrete=True, scale=sd, **tol)
     return case, nt
 
 
 def o_generic_discrete(o, rng):
     k, a, loc, before = gen_generic_discrete(rng)
-    return check_generic_discrete(o, dict(family='discrete-scipy:' + k, parameters=a, loc=loc, **(dict(preceded_by=before) if before else {})), rng)
+    case = dict(family='discrete-scipy:' + k, parameters=a, loc=loc, **(dict(preceded_by=before) if before else {}))
+    if rng.random() < .25:                                  # a pmf dict of some OTHER distribution passed next to the object (documented as ignored)
+        case['ignored_pmf'] = {str(kk): v for kk, v in sorted(gen_pmf(rng).items())}; o.chk.count('discrete_loss(distrib) with an ignored pmf dict as well')
+    return check_generic_discrete(o, case, rng)
 
 
 # ---- arbitrary continuous distributions with a heavy right tail (finite mean, variance finite or infinite), support bounded below
@@ -512,7 +542,7 @@ def malformed(o, rng):
 
 
 FAMILIES = [('standard_normal', 0.5), ('normal', 1.0), ('lognormal', 1.0), ('exponential', 1.0), ('gamma', 1.0), ('uniform', 1.0)]
-DISCRETE = [('poisson', 1.0), ('geometric', 1.0), ('negative_binomial(r,p)', 1.0), ('negative_binomial(mean,sd)', 1.0)]
+DISCRETE = [('poisson', 1.0), ('geometric', 1.0), ('negative_binomial(r,p)', 1.0), ('negative_binomial(mean,sd)', 1.0), (NB_BOTH, 1.0)]
 
 
 def run_oracles(chk, n, do_model=True):
@@ -619,6 +649,8 @@ def replay(chk, rp):
     if fam == 'discrete' and isinstance(case.get('pmf'), dict):
         c, _nt = check_discrete_arbitrary(o, {k: v for k, v in case.items() if k != 'x'}, chk.rng)      # the recorded dict, in its recorded insertion order
         chk.case(c); return
+    if fam == NB_BOTH and all(k in case for k in ('r', 'p', 'mean', 'sd')):                   # carries everything needed as well
+        c, _nt = o_discrete_family(o, chk.rng, fam, params=case); chk.case(c); return
     for _ in range(40):
         if fam in [f for f, _ in FAMILIES]: c, _nt = o_continuous_family(o, chk.rng, fam)
         elif fam in [f for f, _ in DISCRETE]: c, _nt = o_discrete_family(o, chk.rng, fam)
